@@ -193,7 +193,7 @@ def prop_assumptions(pid, workdir):
         if b.startswith('Closed'):
             res[name] = []
         else:
-            res[name] = re.findall(r'^([A-Za-z_][\w\.]*)\s*:', b, flags=re.M)
+            res[name] = [a for a in re.findall(r'^([A-Za-z_][\w\.]*)\s*:', b, flags=re.M) if a != 'Axioms']
     if len(blocks) != len(names):
         return False, res, 'could not parse Print Assumptions output\n' + out
     return True, res, out
